@@ -13,6 +13,8 @@ def compare(op, impl, model):
     4*n*2^-24*sum|terms| (n = longest row + number of additions to the voxel + 10); see lean/Driver/C14.lean."""
     if impl == model:
         return True
+    if op.split(" ", 1)[0] == "runw":
+        return compare_runw(impl, model)
     if op.split(" ", 1)[0] != "lmgps":
         return False
     if impl in ("err", "<missing>") or model in ("no-row", "bad-op", "<missing>"):
@@ -30,6 +32,31 @@ def compare(op, impl, model):
                 return False
         return True
     except (ValueError, OverflowError):
+        return False
+
+
+def compare_runw(impl, model):
+    """Normalised histograms: the implementation prints the stored floats (hex), the model per output bin that received additions
+    round(exact*2^100):ceil(bound*2^100), bound = 4*(n+3)*2^-24*sum|terms| for n additions (each term: two float divisions,
+    the sum: n-1 float additions).  Bins listed by one side only count as 0 (bound 0) on the other."""
+    if impl in ("err", "<missing>") or model in ("err", "bad-op", "<missing>"):
+        return False
+    try:
+        ip, mp = impl.split(" | "), model.split(" | ")
+        if len(ip) != len(mp) or ip[0].split() != mp[0].split():
+            return False
+        for fi, fm in zip(ip[1:], mp[1:]):
+            di = {} if fi.strip() == "-" else dict((t.split("=")[0], float.fromhex(t.split("=")[1])) for t in fi.split())
+            dm = {} if fm.strip() == "-" else dict((t.split("=")[0], tuple(int(x) for x in t.split("=")[1].split(":"))) for t in fm.split())
+            for k in set(di) | set(dm):
+                x = di.get(k, 0.0)
+                if x != x or x in (float("inf"), float("-inf")):
+                    return False
+                v, b = dm.get(k, (0, 0))
+                if abs(Fraction(x) * SCALE - v) > b + 2:
+                    return False
+        return True
+    except (ValueError, OverflowError, IndexError):
         return False
 
 
